@@ -449,7 +449,7 @@ class Executor:
         m = re.match(r'^(-?[\d.]+(?:e-?\d+)?)f(32|64)$', c)
         if m: return float(m.group(1))
         if c.startswith('"'): return self._str_lit(c)
-        if c.startswith('b"'): return PVec([Cell(b) for b in self._bytes_lit(c[1:])])
+        if c.startswith('b"'): return Ref(Cell(PVec([Cell(b) for b in self._bytes_lit(c[1:])])))      # &'static [u8; N]
         if c.startswith("'"): return self._str_lit('"' + c[1:-1].replace('"', '\\"') + '"') if c != "'\"'" else '"'
         if c.startswith('ZeroSized: '):
             t = c[len('ZeroSized: '):]
@@ -1007,6 +1007,8 @@ class Executor:
         if len(args) != nparams:
             if nparams == 1: args = [Tup([Cell(a) for a in args])]
             else: raise Unsupported(f'closure arity {clo.fn}')
+        if clo.fn in self.summarize:
+            return self.call_summarized(clo.fn, [a0] + list(args))
         return self.call_fn(clo.fn, [a0] + list(args))
 
     def poll_coroutine(self, co_cell):
